@@ -79,6 +79,7 @@ TNotify  == Is("Notify") /\ Notify /\ Step
 
 TSilent  == /\ \/ \E r \in Req : \/ (CallerCheck(r) /\ pc'[r] # "waiting")
                                  \/ CallerWaitTimeout(r) \/ CallerWaitLeave(r) \/ CallerWaitReject(r)
+                                 \/ CallerNoTimeLeft(r)
                                  \/ CallerGotResult(r) \/ CallerDeadline(r)
                \/ GatherNotify
             /\ Silent
